@@ -70,6 +70,14 @@ func (w *world) config() string {
 - work-command:
     worktype: cat
     command: cat
+- work-command:
+    worktype: sleeper
+    command: sh
+    params: '-c "echo C08OUT; exec sleep 300"'
+- work-command:
+    worktype: quiet
+    command: sleep
+    params: "300"
 - control-service:
     service: control
     filename: %s
@@ -91,7 +99,59 @@ func setup(c *Ctx, im *Impl, cf *CaseFile) *world {
 
 func (w *world) teardown() {
 	w.d.Kill()
+	killTree(w.dir)
 	_ = os.RemoveAll(w.dir)
+}
+
+// killTree kills the detached command runners of this run (their command line names the scratch
+// directory) and their children (`sleep 300`).
+func killTree(dir string) {
+	type proc struct {
+		pid, ppid int
+		cmd       string
+	}
+	var ps []proc
+	ents, _ := os.ReadDir("/proc")
+	for _, e := range ents {
+		pid := 0
+		if _, err := fmt.Sscanf(e.Name(), "%d", &pid); err != nil || pid <= 1 || pid == os.Getpid() {
+			continue
+		}
+		b, err := os.ReadFile("/proc/" + e.Name() + "/cmdline")
+		if err != nil {
+			continue
+		}
+		st, err := os.ReadFile("/proc/" + e.Name() + "/stat")
+		if err != nil {
+			continue
+		}
+		f := strings.Fields(string(st[strings.LastIndex(string(st), ")")+1:]))
+		ppid := 0
+		if len(f) > 1 {
+			fmt.Sscanf(f[1], "%d", &ppid)
+		}
+		ps = append(ps, proc{pid, ppid, string(b)})
+	}
+	doomed := map[int]bool{}
+	for _, p := range ps {
+		if strings.Contains(p.cmd, dir) {
+			doomed[p.pid] = true
+		}
+	}
+	for changed := true; changed; {
+		changed = false
+		for _, p := range ps {
+			if doomed[p.ppid] && !doomed[p.pid] {
+				doomed[p.pid] = true
+				changed = true
+			}
+		}
+	}
+	for pid := range doomed {
+		if p, err := os.FindProcess(pid); err == nil {
+			_ = p.Kill()
+		}
+	}
 }
 
 const statusJSON = `{"State":2,"Detail":"exit status 0","StdoutSize":0,"WorkType":"cat","ExtraData":{"Pid":0,"Params":""}}` + "\n"
@@ -786,7 +846,7 @@ func (w *world) addCase(sp sessSpec, before, disk []string, replies []int, newid
 		fr = append(fr, "("+HxS(f[0])+", "+HxS(f[1])+")")
 	}
 	node := fmt.Sprintf("(mknode %s %s %s %s %s %s [] [(%s, %s)])", HxS(self), CoqBool(sp.conn == "unix"),
-		CoqStrList(before), CoqStrList(disk), CoqList(fr), CoqStrList([]string{"cat"}), HxS(self), HxS("control"))
+		CoqStrList(before), CoqStrList(disk), CoqList(fr), CoqStrList([]string{"cat", "sleeper", "quiet"}), HxS(self), HxS("control"))
 	rs := []string{}
 	for _, r := range replies {
 		rs = append(rs, fmt.Sprint(r))
@@ -1449,8 +1509,8 @@ func (w *world) concurrentReload(n, reps int) {
 
 func runC08(c *Ctx) {
 	im := NewImpl("C08", c.Seed, c.Tier)
-	im.Rule = "sessions on the real daemon: (1) systematic product command x field x {absent, null, bool, number, string, arrays, object} plus value sets for unit IDs (indexed, disk-only, foreign path, path characters, absent), nodes, work types, ttl, options, spellings; raw JSON shapes; plain-text forms; (2) random byte streams of 1-5 lines with CR/LF/'{' sprinkled in; (3) mixed multi-command sessions, half of them ending in an unterminated line + half-close; (4) abrupt disconnects at 8 points, 1 MiB lines of 5 kinds, N concurrent sessions, concurrent reloads, work list/status on two sessions against release of units with large directories on two others (oracle only); non-trivial = at least one non-empty request line; distinct by full input"
-	cf := &CaseFile{Dir: c.Out, Prop: "C08", Imports: []string{"Model.Ctl"}, CaseType: "ctl_case", CheckFn: "ctl_check", PerShard: 250}
+	im.Rule = "sessions on the real daemon: (1) systematic product command x field x {absent, null, bool, number, string, arrays, object} plus value sets for unit IDs (indexed, disk-only, foreign path, path characters, absent), nodes, work types, ttl, options, spellings; raw JSON shapes; plain-text forms; parameters at their bounds: every registered command word x a pool of blank/tab/leading/trailing/too-many parameter strings in plain and JSON form, unit IDs {known, unknown, empty, blanks} for every unit command, `work results` start positions {-1, 0, size-1, size, size+1, 2^31-1, 2^31, 2^63-1, 2^63, 1e30, non-numbers} in both forms against finished and running units with empty and non-empty stdout (stream read to its end and compared with the file); (2) random byte streams of 1-5 lines with CR/LF/'{' sprinkled in; (3) mixed multi-command sessions, half of them ending in an unterminated line + half-close; (4) abrupt disconnects at 8 points, 1 MiB lines of 5 kinds, N concurrent sessions, concurrent reloads, work list/status on two sessions against release of units with large directories on two others (oracle only); non-trivial = at least one non-empty request line; distinct by full input"
+	cf := &CaseFile{Dir: c.Out, Prop: "C08", Imports: []string{"Model.Ctl"}, CaseType: "ctl_case", CheckFn: "ctl_check", PerShard: 130}
 	if c.Bin == "" {
 		Must(fmt.Errorf("VERIF_BIN not set"))
 	}
@@ -1471,7 +1531,12 @@ func runC08(c *Ctx) {
 	for _, sp := range w.product() {
 		w.doCase(sp, true)
 	}
-	nRand, nMixed, nAbrupt, nConc := 160, 90, 2, 2
+	// parameters at and beyond their bounds (bounds.go)
+	for _, sp := range w.paramStrings() {
+		w.doCase(sp, true)
+	}
+	w.startPositions()
+	nRand, nMixed, nAbrupt, nConc := 60, 40, 2, 2
 	sizes := []int{1 << 20}
 	if c.Thorough() {
 		nRand, nMixed, nAbrupt, nConc = 3000, 1500, 12, 10
